@@ -13,6 +13,13 @@
      Find(p)                   ->  found iff p is stored, and then exactly kv[p]
      List(d)                   ->  exactly the children of d, each once, each with kv
      Delete(p)                 ->  p is gone, nothing else changes
+     DeleteChildren(d)         ->  the children of d are gone; entries outside d's
+                                   subtree do not change; entries deeper inside the
+                                   subtree may or may not go (the statement is silent;
+                                   the embedded stores keep them)
+
+   A directory is a sequence of names (TLC cannot look into strings); the key of
+   an entry is <<directory, name>>.
 
    Update of a path that is not stored: the statement is silent (the embedded
    stores create it); both outcomes are admitted.  The order of a listing is
@@ -34,6 +41,10 @@ Insert(p, tok) == kv' = Put(kv, p, tok)
 Update(p, tok) == IF p \in DOMAIN kv THEN kv' = Put(kv, p, tok)
                   ELSE kv' = Put(kv, p, tok) \/ kv' = kv
 Delete(p) == kv' = Drop(kv, p)
+IsUnder(d, q) == Len(q) > Len(d) /\ SubSeq(q, 1, Len(d)) = d
+DeleteChildren(d) ==
+  \E S \in SUBSET {p \in DOMAIN kv : IsUnder(d, p[1])} :
+    kv' = [q \in DOMAIN kv \ (Children(kv, d) \cup S) |-> kv[q]]
 (* a failed write (the store answered an error): nothing may have changed *)
 Failed == UNCHANGED kv
 
@@ -55,6 +66,8 @@ GenNext ==
           /\ Update(p, e) /\ Log([ev |-> "update", dir |-> p[1], name |-> p[2], e |-> e])
      \/ \E p \in Paths :
           Delete(p) /\ Log([ev |-> "delete", dir |-> p[1], name |-> p[2], e |-> 0])
+     \/ \E d \in {p[1] : p \in Paths} :
+          DeleteChildren(d) /\ Log([ev |-> "deltree", dir |-> d, name |-> "", e |-> 0])
 Spec == Init /\ [][GenNext]_vars
 
 (* "what was stored", independently of kv: the entry of the most recent write
@@ -63,13 +76,15 @@ RECURSIVE LastWrite(_, _)
 LastWrite(h, p) ==
   IF h = <<>> THEN 0
   ELSE LET o == h[Len(h)] IN
-       IF <<o.dir, o.name>> = p THEN (IF o.ev = "delete" THEN 0 ELSE o.e)
+       IF o.ev = "deltree" /\ o.dir = p[1] THEN 0
+       ELSE IF o.ev # "deltree" /\ <<o.dir, o.name>> = p THEN (IF o.ev = "delete" THEN 0 ELSE o.e)
        ELSE LastWrite(SubSeq(h, 1, Len(h) - 1), p)
 ReadsLastWrite == \A p \in Paths : (IF p \in DOMAIN kv THEN kv[p] ELSE 0) = LastWrite(hist, p)
 OnlyWritten == DOMAIN kv \subseteq Paths
 (* a write to one path never changes what another path reads *)
 Isolation == [][\A p \in Paths :
-                  (hist' # hist /\ <<hist'[Len(hist')].dir, hist'[Len(hist')].name>> # p)
+                  (hist' # hist /\ <<hist'[Len(hist')].dir, hist'[Len(hist')].name>> # p
+                     /\ ~(hist'[Len(hist')].ev = "deltree" /\ (hist'[Len(hist')].dir = p[1] \/ IsUnder(hist'[Len(hist')].dir, p[1]))))
                   => ((p \in DOMAIN kv) = (p \in DOMAIN kv') /\ (p \in DOMAIN kv => kv'[p] = kv[p]))]_vars
 
 Emit == Len(hist) < MaxOps \/ PrintT(<<"W", ToJson(hist)>>)
